@@ -15,14 +15,24 @@
        polarized mode — premises: teq_ok, tc_annotations_typed, topo_reachable (proofs/RtTheorems.v);
      * C01_static_check_sound / C01_safety_checked_partial : the premise tc_annotations_typed is
        replaced by the verdict of a verified checker on the annotated program (run on the whole
-       suite by lib/vlib/props/C01.py).
+       suite by lib/vlib/props/C01.py);
+     * C01_teq_rt_laws / C01_tc_annotations_typed / C01_safety_tc_partial : the premises teq_ok and
+       tc_annotations_typed are THEOREMS for the agreement teq_rt (identity or bisimilarity of the
+       unfoldings, spec/TypEq.v): whatever the typechecker model returns for a closed program is
+       typed in the run-time judgement, all 14 forms (proofs/RtTcSound.v, RtTcSoundTop.v, RtTcBisim.v).
+       Premises left, per program: prog_syn_ok p and rt_syn_ok p (two computable conditions on the
+       parsed program — types and names are what the parser and expansion produce — evaluated on
+       every program by the check module) and Topo on the reachable configurations;
+       C01_safety_parsed_partial: for a program that comes out of parse_string, prog_syn_ok is a
+       theorem (proofs/ParseSynOk.v) and only rt_syn_ok is left of the two.
    NOT proved: the non-polarized mode (`safety_statement` quantifies over the three modes), and the
-   premises teq_laws (spec/TypEq.v) and topo_reachable (tested by proofs/TopoCheck.v on every suite run). *)
+   premise topo_runs / topo_reachable (tested by proofs/TopoCheck.v on every suite run). *)
 From stdpp Require Import gmap strings.
 Require Import Grits.Base Grits.ModeDefs Grits.Modes Grits.STypes Grits.Forms Grits.Subst Grits.TcDeps Grits.Expand
                Grits.Tc Grits.TcTop Grits.Runtime Grits.spec.RtTyping Grits.spec.Topo
                Grits.proofs.StepErrors Grits.proofs.RtSubst Grits.proofs.RtEffect Grits.proofs.RtSafety
-               Grits.proofs.RtInit Grits.proofs.RtTheorems Grits.proofs.RtStaticCheck.
+               Grits.proofs.RtInit Grits.proofs.RtTheorems Grits.proofs.RtStaticCheck
+               Grits.spec.SynOk Grits.proofs.RtTcSyn Grits.proofs.RtTcBisim Grits.proofs.RtTheoremsTc.
 
 Theorem C01_step_error_inv : forall md D F c ch who e,
   step md D F c ch = SError who e <-> step_err md D F c ch who e.
@@ -99,6 +109,50 @@ Theorem C01_safety_checked_partial : forall txt p p' md,
     exec_run fuel pick md (p_types p') (p_funs p') (init_config p') <> RError c who e.
 Proof. exact safety_checked_partial. Qed.
 
+(* the two former premises, for the agreement teq_rt D s t := s = t \/ TypEq.Bisim D s t *)
+Theorem C01_teq_rt_laws : forall D, teq_laws D (teq_rt D).
+Proof. exact teq_rt_laws. Qed.
+
+Theorem C01_tc_annotations_typed : forall p p',
+  typecheck p = Accept p' -> prog_syn_ok p = true -> rt_syn_ok p = true -> p_assumed p' = [] ->
+  static_typed (teq_rt (p_types p')) p'.
+Proof. exact tc_annotations_typed_rt. Qed.
+
+Theorem C01_initial_typed_tc : forall p p',
+  typecheck p = Accept p' -> in_fragment p' -> prog_syn_ok p = true -> rt_syn_ok p = true ->
+  cfg_typed (p_types p') (p_funs p') (teq_rt (p_types p')) (init_delta p') (init_config p').
+Proof. exact initial_typed_tc. Qed.
+
+(* C01 without teq_ok and tc_annotations_typed *)
+Theorem C01_safety_tc_partial : forall p p' md,
+  typecheck p = Accept p' -> in_fragment p' -> prog_syn_ok p = true -> rt_syn_ok p = true ->
+  (* topo_runs *)
+  (forall md c, is_np md = false -> reachable (p_types p') (p_funs p') md (init_config p') c -> Topo c) ->
+  is_np md = false ->
+  forall fuel pick c who e,
+    exec_run fuel pick md (p_types p') (p_funs p') (init_config p') <> RError c who e.
+Proof. exact safety_tc_partial. Qed.
+
+(* for programs that come out of the parser prog_syn_ok is a theorem (proofs/ParseSynOk.v) *)
+Theorem C01_safety_parsed_partial : forall txt p p' md,
+  parse_string txt = POk p -> typecheck p = Accept p' -> in_fragment p' -> rt_syn_ok p = true ->
+  (forall md c, is_np md = false -> reachable (p_types p') (p_funs p') md (init_config p') c -> Topo c) ->
+  is_np md = false ->
+  forall fuel pick c who e,
+    exec_run fuel pick md (p_types p') (p_funs p') (init_config p') <> RError c who e.
+Proof. exact safety_parsed_partial. Qed.
+
+(* the two computable premises as the check module evaluates them on every program of the suite *)
+Theorem C01_syn_premises_sound : forall txt, syn_premises_text txt = SY_ok ->
+  exists p p', parse_string txt = POk p /\ typecheck p = Accept p' /\ in_fragment p' /\
+               prog_syn_ok p = true /\ rt_syn_ok p = true /\
+               static_typed (teq_rt (p_types p')) p'.
+Proof. exact syn_premises_sound. Qed.
+
+Example C01_examples_syn_ok :
+  text_syn_ok example_text = true /\ text_syn_ok example_drop_text = true /\ text_syn_ok example_split_text = true.
+Proof. exact examples_syn_ok. Qed.
+
 Example C01_static_check_examples :
   static_check_text example_text = SV_typed /\ static_check_text example_drop_text = SV_typed /\
   static_check_text example_split_text = SV_typed.
@@ -137,6 +191,13 @@ Print Assumptions C01_initial_typed.
 Print Assumptions C01_safety_partial.
 Print Assumptions C01_static_check_sound.
 Print Assumptions C01_safety_checked_partial.
+Print Assumptions C01_teq_rt_laws.
+Print Assumptions C01_tc_annotations_typed.
+Print Assumptions C01_initial_typed_tc.
+Print Assumptions C01_safety_tc_partial.
+Print Assumptions C01_safety_parsed_partial.
+Print Assumptions C01_syn_premises_sound.
+Print Assumptions C01_examples_syn_ok.
 Print Assumptions C01_static_check_examples.
 Print Assumptions C01_example_in_fragment.
 Print Assumptions C01_example_runs.
